@@ -15,6 +15,7 @@ ID_SETS = {
     'alias2': ['c', 'c.logits.1', 'a.xml', 'a'],
     'prefix': ['scan-7', 'scan-7-2', 'scan', 'scan (2)'],
     'case': ['Page_1', 'page_1', 'zeta', 'Zeta'],
+    'hidden': ['.cover', 'p1', '.b.2', 'q4'],
 }
 ALLOWED = {'ocr': ['xml', 'render', 'logits', 'alto', 'lines'],
            'decode': ['xml', 'alto'],
@@ -35,7 +36,7 @@ def gen_config(r, index=None, subset_cycle=False, force_mode=None):
         outputs = [k for k in allowed if r.random() < 0.6]
         if not outputs:
             outputs = [r.choice(allowed)]
-    cls = r.choice(['plain', 'plain', 'dotted', 'ext', 'alias', 'alias', 'alias2', 'prefix', 'case'])
+    cls = r.choice(['plain', 'plain', 'dotted', 'ext', 'alias', 'alias', 'alias2', 'prefix', 'case', 'hidden'])
     npages = r.randint(1, 4)
     ids = list(ID_SETS[cls])
     if cls.startswith('alias') or cls in ('prefix', 'case'):
@@ -58,6 +59,8 @@ def gen_config(r, index=None, subset_cycle=False, force_mode=None):
                       'regions': r.choice([1, 1, 2])})
     if mode in ('ocr', 'crop') and len(pages) >= 2 and r.random() < 0.12:
         pages[r.randrange(len(pages))]['no_xml'] = True       # image without PAGE XML + --skipp-missing-xml
+    if mode in ('ocr', 'crop', 'layout') and r.random() < 0.08:
+        pages[r.randrange(len(pages))]['sidecar'] = True      # '<id>.txt' next to '<id>.png' in the image folder
     cfg = {'nchars': r.choice([3, 4, 5]), 'space': False, 'interp': r.choice([2, 2, 0])}
     if mode == 'decode' or (mode == 'ocr' and r.random() < 0.4):
         d = gen_decoder_cfg(r, allow_filter=False)
@@ -76,6 +79,7 @@ def gen_config(r, index=None, subset_cycle=False, force_mode=None):
             'junk': r.random() < 0.15,
             'lmdb': mode == 'ocr' and 'lines' in outputs and r.random() < 0.25,
             'delete_output_before_resume': {'page': r.randrange(8), 'kind': r.randrange(4)} if r.random() < 0.08 else None,
+            'input_subfolder': r.random() < 0.08,       # a sub-directory (with an image) inside the image folder: not an input
             'odd_out_name': r.random() < 0.1,          # output root with glob / regex metacharacters in its name
             'input_mtime': r.choice([None, None, None, None, 'future', 'touch_before_resume']),
             'late_pages': [pages[-1]['id']] if (len(pages) >= 2 and r.random() < 0.1 and not pages[-1].get('no_xml')) else [],
